@@ -222,11 +222,11 @@ func c41run(e *env, src string, c c41case, logf func(string, ...any)) (res c41re
 
 	// Model state (only what the property statement mentions).
 	var (
-		freshS, freshT bool                // successful scan since the last Stage / Transition call
-		haveOk         bool                // some scan succeeded
-		cOk            uint64              // entry count seen by the last successful scan
-		failedSince    bool                // a scan attempt failed after the last successful one
-		scanDigests    = map[string]bool{} // digests of files present at the last successful scan
+		freshS, freshT bool                  // successful scan since the last Stage / Transition call
+		haveOk         bool                  // some scan succeeded
+		cOk            uint64                // entry count seen by the last successful scan
+		failedSince    bool                  // a scan attempt failed after the last successful one
+		scanFiles      = map[string]string{} // path -> digest of the files present at the last successful scan
 		grown          int
 	)
 	limit := c.Max
@@ -249,9 +249,9 @@ func c41run(e *env, src string, c c41case, logf func(string, ...any)) (res c41re
 				return
 			}
 			freshS, freshT, haveOk, failedSince, cOk = true, true, true, false, v.count
-			scanDigests = map[string]bool{}
-			for _, d := range v.files {
-				scanDigests[d] = true
+			scanFiles = map[string]string{}
+			for q, d := range v.files {
+				scanFiles[q] = d
 			}
 			if over(cOk, 0) {
 				res.outcomes = append(res.outcomes, "scan:ok-over-limit")
@@ -305,7 +305,18 @@ func c41run(e *env, src string, c c41case, logf func(string, ...any)) (res c41re
 			for k, p := range c.Req {
 				hexd := sha1hex(c41content(p))
 				_ = digests[k]
-				inRootAtScan := scanDigests[hexd]
+				// inRootAtScan: some file seen by the last successful scan has the digest;
+				// stillThere: one of THOSE files is unchanged on disk now (a file that only
+				// appeared after the scan is something the session cannot know about).
+				inRootAtScan, stillThere := false, false
+				for q, d := range scanFiles {
+					if d == hexd {
+						inRootAtScan = true
+						if now.files[q] == hexd {
+							stillThere = true
+						}
+					}
+				}
 				inRootNow := now.hasDigest(hexd)
 				if contains(R, p) {
 					// "...that still need data": content already staged, or present in the
@@ -314,7 +325,7 @@ func c41run(e *env, src string, c c41case, logf func(string, ...any)) (res c41re
 						res.viol = fmt.Sprintf("op %d: Stage requested %q although its content was already delivered to staging and no transition happened since", i, p)
 						return
 					}
-					if inRootAtScan && inRootNow {
+					if stillThere {
 						res.viol = fmt.Sprintf("op %d: Stage requested %q although a file with the same digest exists in the root", i, p)
 						return
 					}
